@@ -121,28 +121,45 @@ class Run:
         """Split `trace` in chunks, run the trace specification on each (parallel JVMs), collect every
         failing event.  Only clauses starting with `prefix` (the property id) count."""
         prefix = prefix or self.prop
-        lines = open(trace).read().splitlines()
-        if not lines:
+        # stream the trace into chunk files (traces can be several GB in the thorough tier)
+        chunks, total = [], 0
+        marker = ('"ev":"%s"' % group_on) if group_on else None
+        evre = re.compile(r'"ev":"([^"]+)"')
+        cur, cur_n, base = None, 0, 0
+        first, mid_candidates = [], []
+
+        def close():
+            nonlocal cur, cur_n, base
+            if cur is not None:
+                cur.close()
+                chunks.append((base, "%s.c%d" % (trace, len(chunks)), cur_n))
+                base += cur_n
+                cur, cur_n = None, 0
+
+        with open(trace) as fh:
+            for ln in fh:
+                if not ln.strip():
+                    continue
+                if cur is not None and cur_n >= chunk and (marker is None or marker in ln):
+                    close()
+                if cur is None:
+                    cur = open("%s.c%d" % (trace, len(chunks)), "w")
+                cur.write(ln if ln.endswith("\n") else ln + "\n")
+                cur_n += 1
+                total += 1
+                k = evre.search(ln)
+                kk = "%s/%s" % (family, k.group(1) if k else "?")
+                self.kinds[kk] = self.kinds.get(kk, 0) + 1
+                if len(first) < 2:
+                    first.append(ln)
+                elif total % 997 == 0 and len(mid_candidates) < 1:
+                    mid_candidates.append(ln)
+        close()
+        if total == 0:
             raise MachineryError("driver %s produced an empty trace" % family)
-        chunks = []
-        if group_on:   # stateful traces: cut only where the recorded system was reset
-            marker = '"ev":"%s"' % group_on
-            cuts, last = [0], 0
-            for i, ln in enumerate(lines):
-                if marker in ln and i - last >= chunk:
-                    cuts.append(i)
-                    last = i
-            cuts.append(len(lines))
-            bounds = [(cuts[j], cuts[j + 1]) for j in range(len(cuts) - 1) if cuts[j + 1] > cuts[j]]
-        else:
-            bounds = [(i, min(i + chunk, len(lines))) for i in range(0, len(lines), chunk)]
-        for j, (a, b) in enumerate(bounds):
-            path = "%s.c%d" % (trace, j)
-            open(path, "w").write("\n".join(lines[a:b]) + "\n")
-            chunks.append((a, path, b - a))
 
         def one(c):
-            base, path, cnt = c
+            cbase, path, cnt = c
             e = {"VERIF_TRACE": path}
             e.update(env or {})
             rc, out, gen, dist = self.tlc(spec, env=e, xmx=xmx, timeout=timeout)
@@ -152,31 +169,38 @@ class Run:
             fl = []
             for m in re.finditer(r'<<\s*"VFAIL",\s*(\d+),\s*<<(.*?)>>\s*>>', out, re.S):
                 clauses = re.findall(r'"([^"]+)"', m.group(2))
-                fl.append((base + int(m.group(1)) - 1, clauses))
-            return gen, dist, fl
+                if any(cl.startswith(prefix) for cl in clauses):
+                    fl.append((int(m.group(1)), clauses))
+            evs = []
+            if fl:
+                want = {i for i, _ in fl}
+                got = {}
+                with open(path) as fh:
+                    for i, ln in enumerate(fh, 1):
+                        if i in want:
+                            got[i] = json.loads(ln)
+                evs = [(got[i], cl) for i, cl in fl]
+            os.unlink(path)
+            return gen, dist, evs
 
         with cf.ThreadPoolExecutor(max_workers=jobs) as ex:
             results = list(ex.map(one, chunks))
         nf = 0
-        for gen, dist, fl in results:
+        for gen, dist, evs in results:
             self.states += dist
             self.transitions += gen
-            for idx, clauses in fl:
+            for ev, clauses in evs:
                 mine = [c for c in clauses if c.startswith(prefix)]
-                if mine:
-                    nf += 1
-                    self.fails.append((family, json.loads(lines[idx]), mine))
-        self.events += len(lines)
-        for ln in lines:
-            k = re.search(r'"ev":"([^"]+)"', ln)
-            kk = "%s/%s" % (family, k.group(1) if k else "?")
-            self.kinds[kk] = self.kinds.get(kk, 0) + 1
-        for ln in lines[:2] + lines[len(lines) // 2:len(lines) // 2 + 1]:
+                nf += 1
+                if len(self.fails) < 5000:
+                    self.fails.append((family, ev, mine))
+                else:
+                    self.fail_overflow = getattr(self, "fail_overflow", 0) + 1
+        self.events += total
+        for ln in first + mid_candidates:
             if len(self.samples) < 12:
                 self.samples.append(shorten(json.loads(ln)))
-        for c in chunks:
-            os.unlink(c[1])
-        log("validated %s (%s): %d events, %d failing for %s" % (label or os.path.basename(trace), spec, len(lines), nf, prefix))
+        log("validated %s (%s): %d events, %d failing for %s" % (label or os.path.basename(trace), spec, total, nf, prefix))
         return nf
 
     def require_kinds(self, *kinds):
